@@ -677,6 +677,12 @@ func randTx(r *hx.Rand) []byte {
 	return buf.Bytes()
 }
 
+func randProposal(r *hx.Rand) payload.DPOSProposal {
+	var h common.Uint256
+	copy(h[:], r.Bytes(32))
+	return payload.DPOSProposal{Sponsor: r.Bytes(r.Pick(33, 33, 0, 1)), BlockHash: h, ViewOffset: uint32(r.U64()), Sign: r.Bytes(r.Pick(64, 64, 0, 65))}
+}
+
 // constructed returns a structured valid payload for a few commands (nil if none is built here).
 func constructed(r *hx.Rand, st, cmd string) []byte {
 	var m p2p.Message
@@ -733,6 +739,67 @@ func constructed(r *hx.Rand, st, cmd string) []byte {
 		m = &msg.TxFilterLoad{Type: uint8(r.Intn(6)), Data: r.Bytes(r.Pick(0, 10, 1000, 49999, 50000))}
 	case "elanet/tx", "dpos/tx":
 		return randTx(r)
+	case "elanet/block", "dpos/block":
+		d := mkBlock(fmt.Sprintf("%d:%d:%d", 1+r.Intn(100000), r.Intn(1<<30), r.Pick(0, 0, 1, 3)))
+		for i := r.Pick(0, 1, 2); i > 0; i-- {
+			rd := bytes.NewReader(randTx(r))
+			txn, err := functions.GetTransactionByBytes(rd)
+			if err != nil || txn.Deserialize(rd) != nil {
+				panic("harness: cannot rebuild tx")
+			}
+			d.Block.Transactions = append(d.Block.Transactions, txn)
+		}
+		if st == "dpos" {
+			buf := new(bytes.Buffer)
+			if err := d.Block.Serialize(buf); err != nil {
+				return nil
+			}
+			return buf.Bytes()
+		}
+		return freshBlockBytes(d)
+	case "elanet/reject":
+		var h common.Uint256
+		copy(h[:], r.Bytes(32))
+		m = &msg.Reject{Cmd: string(bytes.Repeat([]byte{'c'}, r.Pick(0, 2, 5, 11))), RejectCode: msg.RejectCode(r.Intn(256)),
+			Reason: string(bytes.Repeat([]byte{'r'}, r.Pick(0, 1, 40, 300))), Hash: h}
+	case "elanet/daddr":
+		d := &msg.DAddr{Timestamp: time.Unix(int64(uint32(r.U64())), 0), Cipher: r.Bytes(r.Pick(0, 1, 64, 255, 256)), Signature: r.Bytes(r.Pick(0, 64))}
+		copy(d.PID[:], r.Bytes(33))
+		copy(d.Encode[:], r.Bytes(33))
+		m = d
+	case "dpos/proposal":
+		m = &dmsg.Proposal{Proposal: randProposal(r)}
+	case "dpos/acc_vote", "dpos/rej_vote":
+		var h common.Uint256
+		copy(h[:], r.Bytes(32))
+		m = &dmsg.Vote{Command: cmd, Vote: payload.DPOSProposalVote{ProposalHash: h, Signer: r.Bytes(r.Pick(33, 33, 0, 1)), Accept: r.Bool(), Sign: r.Bytes(r.Pick(64, 64, 0))}}
+	case "dpos/reset_view":
+		m = &dmsg.ResetView{Sponsor: r.Bytes(r.Pick(33, 0, 1)), Sign: r.Bytes(r.Pick(64, 0, 63))}
+	case "dpos/ina_ars":
+		var h common.Uint256
+		copy(h[:], r.Bytes(32))
+		m = &dmsg.ResponseInactiveArbitrators{TxHash: h, Signer: r.Bytes(r.Pick(33, 0)), Sign: r.Bytes(r.Pick(64, 0))}
+	case "dpos/rev_to_dpos":
+		var h common.Uint256
+		copy(h[:], r.Bytes(32))
+		m = &dmsg.ResponseRevertToDPOS{TxHash: h, Signer: r.Bytes(r.Pick(33, 0)), Sign: r.Bytes(r.Pick(64, 0))}
+	case "dpos/ill_pro":
+		m = &dmsg.IllegalProposals{Proposals: payload.DPOSIllegalProposals{
+			Evidence:        payload.ProposalEvidence{Proposal: randProposal(r), BlockHeader: r.Bytes(r.Pick(0, 10, 200)), BlockHeight: uint32(r.U64())},
+			CompareEvidence: payload.ProposalEvidence{Proposal: randProposal(r), BlockHeader: r.Bytes(r.Pick(0, 10, 200)), BlockHeight: uint32(r.U64())}}}
+	case "dpos/side_ill":
+		d := payload.SidechainIllegalData{IllegalType: payload.IllegalDataType(r.Intn(6)), Height: uint32(r.U64()), IllegalSigner: r.Bytes(r.Pick(33, 0)),
+			GenesisBlockAddress: string(bytes.Repeat([]byte{'g'}, r.Pick(0, 34)))}
+		copy(d.Evidence.DataHash[:], r.Bytes(32))
+		copy(d.CompareEvidence.DataHash[:], r.Bytes(32))
+		for i := r.Intn(3); i > 0; i-- {
+			d.Signs = append(d.Signs, r.Bytes(r.Pick(64, 0, 10)))
+		}
+		m = &dmsg.SidechainIllegalData{Data: d}
+	case "dpos/verack":
+		m = dmsg.NewVerAck(r.Bytes(64))
+	case "dpos/addr":
+		m = dmsg.NewAddr(string(bytes.Repeat([]byte{'h'}, r.Pick(0, 1, 9, 253))), uint16(r.U64()))
 	case "dpos/ping":
 		m = dmsg.NewPing(r.U64())
 	case "dpos/pong":
@@ -1051,6 +1118,28 @@ func gen(g *hx.Gen) {
 	for _, p := range [][]byte{{}, {0}, {0, 1}, {0, 1, 2}, {3, 'a', 'b', 'c', 1, 2}, {3, 'a', 'b', 'c', 1}, {3, 'a', 'b'}, {0xfd, 3, 0, 'a', 'b', 'c', 1, 2},
 		{0xfd, 0xfd, 0}, append(append([]byte{0xfc}, r.Bytes(252)...), 1, 2), append([]byte{0xfc}, r.Bytes(252)...)} {
 		emitRead(g, "dpos", magics[1], frame(magics[1], "addr", p))
+	}
+
+	// 4d. the structured codecs modelled at value level (Model/P2PCodec.lean): valid payloads and every kind of prefix
+	for _, sc := range [][2]string{{"elanet", "block"}, {"dpos", "block"}, {"elanet", "reject"}, {"elanet", "daddr"}, {"elanet", "tx"}, {"dpos", "tx"}, {"dpos", "proposal"}, {"dpos", "acc_vote"},
+		{"dpos", "rej_vote"}, {"dpos", "reset_view"}, {"dpos", "ina_ars"}, {"dpos", "rev_to_dpos"}, {"dpos", "ill_pro"}, {"dpos", "side_ill"},
+		{"dpos", "verack"}, {"dpos", "addr"}} {
+		max := int(instances[sc[0]][sc[1]]().MaxLength())
+		for k := 0; k < g.N(4, 30); k++ {
+			p := constructed(r, sc[0], sc[1])
+			if p == nil {
+				continue
+			}
+			cands := [][]byte{p, append(append([]byte(nil), p...), r.Bytes(1+r.Intn(3))...)}
+			if len(p) > 0 {
+				cands = append(cands, p[:r.Intn(len(p))], p[:len(p)-1])
+			}
+			for _, q := range cands {
+				if len(q) <= max {
+					emitRead(g, sc[0], magics[1], frame(magics[1], sc[1], q))
+				}
+			}
+		}
 	}
 
 	// 5. real messages written by WriteMessage over a net.Pipe and read back through the stack
